@@ -467,4 +467,7 @@ def _independent_reads(db, rep):
                           'also when term references form a loop - otherwise every load / save cycle writes a different document', 2)
     from rules import C17
     C17.resolution_idempotent_rule(db, r11)
+    from rules import C07 as _C07
+    if db.fn(_C07.THES + '::OnTermChange', required=False) is not None:
+        _C07._on_term_change(db, r11)          # an edit refreshes the definitions of the whole term closure, as a load does (shared with C07 r3)
     rep.note('key_reads', n_reads)
